@@ -27,21 +27,27 @@ import (
 // (acquirer / releaser) and the obligation moves to their callers; it is reported where no module function calls the
 // holder any more (exported functions, closures, goroutine bodies).
 //
-// Today's tree takes no lock at all, so the rule is exercised on every run against an embedded example with one
-// correct and three broken functions; if that example is not classified exactly, the rule reports itself broken.
+// Today's tree takes no lock at all, so the rule is exercised on every run against an embedded example with correct
+// and broken functions; if that example is not classified exactly, the rule reports itself broken.
 func S16LockPairing(p *core.Program, a *spec.Anchors, r *core.Report) {
 	r.Rule("S16 (lock pairing): on every path from a Lock / RLock (sync.Mutex, sync.RWMutex, sync.Locker) to a return of the same function the matching Unlock / RUnlock is called or has been deferred; helpers that acquire or release on behalf of their callers are summarised and the obligation is checked at the callers")
 	if err := s16SelfTest(); err != nil {
 		r.Undecide("S16.selftest", "rules.S16LockPairing", "broken", "", "the lock-pairing rule does not classify its embedded example as expected: "+err.Error())
 		return
 	}
-	r.Pass("S16.selftest", "rules.S16LockPairing", "", "", "embedded example: 1 correct function passes, 3 broken ones (missing unlock on an early return, helper that leaves the lock held, deferred unlock registered after the early return) are reported")
+	r.Pass("S16.selftest", "rules.S16LockPairing", "", "", "embedded example: 1 correct function passes, 4 broken ones (missing unlock on an early return, helper that leaves the lock held, deferred unlock registered after the early return, two locks of the same kind nested without an order) are reported")
 	fns := p.ModuleFunctions()
 	res := s16Analyse(fns, func(f *ssa.Function) bool { return core.InModule(f) })
 	r.Count("S16.lock_sites", res.sites)
 	r.Count("S16.functions_scanned", len(fns))
 	r.Min("S16.functions_scanned", 100)
 	for _, v := range res.violations {
+		if k, isNested := strings.CutPrefix(v.key, "nested:"); isNested {
+			r.Violate("S16.lock", core.FuncKey(v.fn), "nested-same-kind:"+k, p.Pos(v.fn.Pos()),
+				fmt.Sprintf("%s takes %s while it may already hold a lock of that same kind (on another object, or the same): without a global order two calls with the operands swapped deadlock", v.fn.String(), k),
+				"a.Op(b) on one goroutine, b.Op(a) on another")
+			continue
+		}
 		r.Violate("S16.lock", core.FuncKey(v.fn), "held-at-return:"+v.key, p.Pos(v.fn.Pos()),
 			fmt.Sprintf("%s can return while still holding %s (a path from the Lock to a return without Unlock and without a deferred Unlock registered on that path): the next call that takes this lock blocks forever", v.fn.String(), v.key),
 			"call it once on the path that skips the unlock, then call anything that takes the same lock")
@@ -174,6 +180,7 @@ func s16Analyse(fns []*ssa.Function, inScope func(*ssa.Function) bool) s16Result
 		}
 	}
 	hasLock := map[*ssa.Function]bool{}
+	nested := map[*ssa.Function]string{}
 	analyse := func(fn *ssa.Function) (acq, rel map[string]bool) {
 		acq, rel = map[string]bool{}, map[string]bool{}
 		if len(fn.Blocks) == 0 {
@@ -227,6 +234,12 @@ func s16Analyse(fns []*ssa.Function, inScope func(*ssa.Function) bool) s16Result
 					switch k {
 					case 1:
 						hasLock[fn] = true
+						if held[key] && strings.HasPrefix(key, "field ") {
+							// a second lock of the same kind (the same mutex field of the same type, on another object - or on
+							// the same one) taken while one is held: two callers that take them in opposite order wait for each
+							// other forever, and taking the same one twice blocks at once
+							nested[fn] = key
+						}
 						held[key] = true
 					case 2:
 						if !held[key] {
@@ -329,6 +342,9 @@ func s16Analyse(fns []*ssa.Function, inScope func(*ssa.Function) bool) s16Result
 			res.violations = append(res.violations, s16Violation{fn, k})
 		}
 	}
+	for fn, key := range nested {
+		res.violations = append(res.violations, s16Violation{fn, "nested:" + key})
+	}
 	sort.Slice(res.violations, func(i, j int) bool {
 		if res.violations[i].fn.String() != res.violations[j].fn.String() {
 			return res.violations[i].fn.String() < res.violations[j].fn.String()
@@ -386,7 +402,7 @@ func s16SelfTest() error {
 			got = append(got, v.fn.Name())
 		}
 		sort.Strings(got)
-		want := "DeferTooLate,EarlyReturn,ViaHelper"
+		want := "DeferTooLate,EarlyReturn,Swap,ViaHelper"
 		if strings.Join(got, ",") != want {
 			return fmt.Errorf("reported %v, expected %s", got, want)
 		}
